@@ -786,8 +786,12 @@ impl Typed for C01 {
                     let _ = tokio::time::timeout(Duration::from_secs(30), server.close()).await;
                 }
             }
-            ctx.add("fault.packets_dropped", net.log().iter().filter(|p| p.fate == "dropped").count() as u64);
-            ctx.add("fault.packets_duplicated", net.log().iter().filter(|p| p.fate == "duplicated").count() as u64);
+            let nl = net.log();
+            ctx.add("fault.packets_dropped", nl.iter().filter(|p| p.fate == "dropped").count() as u64);
+            ctx.add("fault.packets_duplicated", nl.iter().filter(|p| p.fate == "duplicated").count() as u64);
+            ctx.add("fault.packets_partitioned", nl.iter().filter(|p| p.fate == "partitioned").count() as u64);
+            // the packet-level course of the run is part of its history (distinct interleavings)
+            ctx.ev(format!("net: {} packets, {} dropped, {} duplicated, {} partitioned", nl.len(), nl.iter().filter(|p| p.fate == "dropped").count(), nl.iter().filter(|p| p.fate == "duplicated").count(), nl.iter().filter(|p| p.fate == "partitioned").count()));
             if !matches!(case.scenario, Scenario::DialHonest) {
                 ctx.nontrivial();
             }
